@@ -28,23 +28,30 @@ Lemma second_detach_refutes :
     length (filter is_det os) = 2%nat /\ length (filter is_att os) = 0%nat.
 Proof. exists [VPAttach; VClose; VPDetach KDetach]. cbn. split; reflexivity. Qed.
 
-(** an unseen peer detach is answered by the application's next operation on the link - unless that
-    operation is a send() with credit in hand *)
+(** an unseen peer detach is answered by the application's next operation on the link *)
 Definition next_op (e : lev) : bool := match e with VSend | VDetach | VClose | VDrop => true | _ => false end.
 
-Lemma peer_detach_answered k c e : next_op e = true -> (e = VSend -> c = false) ->
+Lemma peer_detach_answered k c e : next_op e = true ->
   existsb is_det (snd (lkstep (LIdle (Some k) c) e)) = true.
 Proof.
-  destruct e; try discriminate; intros _ Hs; destruct k; destruct c; cbn; try reflexivity;
-    specialize (Hs eq_refl); discriminate.
+  destruct e; try discriminate; intros _; destruct k; destruct c; cbn; reflexivity.
 Qed.
 
-(** ... and in kind when the operation is close(), drop or a blocked send(); detach() after a closing detach is not *)
-Lemma answered_in_kind k c e : (e = VClose \/ e = VDrop \/ (e = VSend /\ c = false)) ->
+(** ... and in kind when the operation is close(), drop or send(); detach() after a closing detach is not *)
+Lemma answered_in_kind k c e : (e = VClose \/ e = VDrop \/ e = VSend) ->
   In (XDetach (answer k)) (snd (lkstep (LIdle (Some k) c) e)) \/ In (XDetach true) (snd (lkstep (LIdle (Some k) c) e)).
 Proof.
-  intros [-> | [-> | [-> ->]]]; destruct k; try destruct c; cbn; auto.
+  intros [-> | [-> | ->]]; destruct k; try destruct c; cbn; auto.
 Qed.
+
+(** no transfer is written once the peer's detach has arrived *)
+Lemma no_transfer_after_peer_detach k c e : existsb is_xfer (snd (lkstep (LIdle (Some k) c) e)) = false.
+Proof. destruct e as [| | |k'| | | | |]; destruct k; destruct c; try destruct k'; reflexivity. Qed.
+
+(** a closing detach fails the pending send() at once *)
+Lemma closing_detach_fails_send k : k <> KDetach ->
+  In (DSend (Some RIllegalState)) (snd (lkstep (LSendWait None) (VPDetach k))).
+Proof. destruct k; intros H; try contradiction; cbn; auto. Qed.
 
 Lemma detach_not_in_kind_refutes : forall c,
   snd (lkstep (LIdle (Some KClose) c) VDetach) = [XDetach false; DDetach (Some RDetachedByRemote)].
@@ -71,7 +78,7 @@ Proof.
 Qed.
 
 Lemma peer_error_to_send c :
-  In (DSend (Some RRemoteClosedWithError)) (snd (lkstep (LIdle (Some KCloseErr) false) VSend)) /\
+  In (DSend (Some RRemoteClosedWithError)) (snd (lkstep (LIdle (Some KCloseErr) c) VSend)) /\
   In (DClose (Some RRemoteClosedWithError)) (snd (lkstep (LIdle (Some KCloseErr) c) VClose)).
 Proof. split; destruct c; cbn; auto. Qed.
 
